@@ -89,6 +89,77 @@ Theorem C08_paths_agree_unconditioned_refuted :
 Proof. exact paths_agree_unconditioned_refuted. Qed.
 Print Assumptions C08_paths_agree_unconditioned_refuted.
 
+(* the np.empty matrix is read before it is completely written (is_satisfied.all() at step i sees the
+   columns > i), so the oracle stays in the model; what is proved is that its content is never observed *)
+Theorem C08_uninitialised_memory_never_observed :
+  forall (atol rtol : Qc) (m : cqm) (samples : list sample) (garb garb' : list bool),
+    from_samples_cqm atol rtol m samples garb = from_samples_cqm atol rtol m samples garb'.
+Proof. exact from_samples_cqm_garb_irrelevant. Qed.
+Print Assumptions C08_uninitialised_memory_never_observed.
+
+(* ---- tolerances ---- *)
+Theorem C08_satisfied_monotone_in_tolerances :
+  forall (atol rtol atol' rtol' : Qc) (k : constraint) (s : sample),
+    (atol <= atol')%Qc -> (rtol <= rtol')%Qc ->
+    satisfied atol rtol k s = true -> satisfied atol' rtol' k s = true.
+Proof. exact satisfied_mono. Qed.
+Print Assumptions C08_satisfied_monotone_in_tolerances.
+
+Theorem C08_feasible_monotone_in_tolerances :
+  forall (atol rtol atol' rtol' : Qc) (m : cqm) (s : sample),
+    (atol <= atol')%Qc -> (rtol <= rtol')%Qc ->
+    feasible atol rtol m s = true -> feasible atol' rtol' m s = true.
+Proof. exact feasible_mono. Qed.
+Print Assumptions C08_feasible_monotone_in_tolerances.
+
+Theorem C08_check_feasible_monotone_in_tolerances :
+  forall (m : cqm) (s : sample) (atol rtol atol' rtol' : Qc),
+    (atol <= atol')%Qc -> (rtol <= rtol')%Qc ->
+    check_feasible m s rtol atol = true -> check_feasible m s rtol' atol' = true.
+Proof. exact check_feasible_mono. Qed.
+Print Assumptions C08_check_feasible_monotone_in_tolerances.
+
+Theorem C08_zero_tolerance_is_exact :
+  forall (k : constraint) (s : sample), satisfied 0%Qc 0%Qc k s = true <-> (violation k s <= 0)%Qc.
+Proof. exact satisfied_zero_tol. Qed.
+Print Assumptions C08_zero_tolerance_is_exact.
+
+Theorem C08_soft_penalty_nonneg :
+  forall (atol rtol : Qc) (k : constraint) (s : sample),
+    (0 <= atol)%Qc -> (0 <= rtol)%Qc -> (forall w pen, c_soft k = Some (w, pen) -> (0 <= w)%Qc) ->
+    (0 <= soft_penalty atol rtol k s)%Qc.
+Proof. exact soft_penalty_nonneg. Qed.
+Print Assumptions C08_soft_penalty_nonneg.
+
+(* ---- labels and order of iter_violations ---- *)
+Theorem C08_iter_violations_labels :
+  forall (m : cqm) (s : sample) (clip : bool),
+    map fst (iter_violations m s false clip) = seq 0 (length (m_cons m)).
+Proof. exact iter_violations_labels. Qed.
+Print Assumptions C08_iter_violations_labels.
+
+Theorem C08_iter_violations_skip_labels :
+  forall (m : cqm) (s : sample) (clip : bool),
+    map fst (iter_violations m s true clip)
+    = map fst (filter (fun iv => negb (Qc_leb (snd iv) 0%Qc)) (spec_violation_list m s)) /\
+    (forall iv, In iv (iter_violations m s true clip) -> In iv (spec_violation_list m s) /\ ~ (snd iv <= 0)%Qc).
+Proof. exact iter_violations_skip_labels. Qed.
+Print Assumptions C08_iter_violations_skip_labels.
+
+(* ---- ExactCQMSolver: feasibility column ---- *)
+Theorem C08_exact_solver_feasible_column :
+  forall (atol rtol : Qc) (m : cqm) (cases : list sample) (garb : list bool),
+    v_is_feasible (exact_cqm_solver atol rtol m cases garb) = map (feasible atol rtol m) cases.
+Proof. exact exact_solver_feasible_column. Qed.
+Print Assumptions C08_exact_solver_feasible_column.
+
+Theorem C08_exact_solver_reports_feasible :
+  forall (atol rtol : Qc) (m : cqm) (cases : list sample) (garb : list bool),
+    In true (v_is_feasible (exact_cqm_solver atol rtol m cases garb))
+    <-> exists s, In s cases /\ feasible atol rtol m s = true.
+Proof. exact exact_solver_reports_feasible. Qed.
+Print Assumptions C08_exact_solver_reports_feasible.
+
 (* ---- hypotheses are satisfiable on non-trivial data ---- *)
 Definition ex_cqm : cqm :=
   mkCqm (mkPoly 0%Qc [(0%nat, 1%Qc); (1%nat, two)] [])
